@@ -841,7 +841,34 @@ fn fold_constraint_set(
         },
         SetOperator::Except => {
             if set.base.per_visible() {
-                Ok(Some(set.base.clone()))
+                // The lexer attaches a trailing extension marker to the last element of the
+                // set, so `(A EXCEPT B, ...)` carries it on the ignored part: keep it.
+                let marked = matches!(
+                    folded_operant,
+                    Some(SubtypeElements::SingleValue {
+                        extensible: true,
+                        ..
+                    }) | Some(SubtypeElements::ValueRange {
+                        extensible: true,
+                        ..
+                    })
+                );
+                Ok(Some(match (set.base.clone(), marked) {
+                    (SubtypeElements::SingleValue { value, .. }, true) => {
+                        SubtypeElements::SingleValue {
+                            value,
+                            extensible: true,
+                        }
+                    }
+                    (SubtypeElements::ValueRange { min, max, .. }, true) => {
+                        SubtypeElements::ValueRange {
+                            min,
+                            max,
+                            extensible: true,
+                        }
+                    }
+                    (base, _) => base,
+                }))
             } else {
                 Ok(None)
             }
